@@ -1589,6 +1589,133 @@ fn main() {
                 None => println!("cursor=build-failed"),
             }
         }
+        // compaction_edit_files : three overlapping tables at three levels are compacted manually; afterwards every key must
+        // read its newest value and the version must hold exactly one table (all inputs deleted, the output installed once)
+        "compaction_edit_files" => {
+            use raindb::{ReadOptions, WriteOptions};
+            let mut o = raindb::DbOptions::with_memory_env();
+            o.db_path = "db".to_string();
+            o.create_if_missing = true;
+            let db = raindb::DB::open(o.clone()).expect("open");
+            for round in 0..3 {
+                for k in ["a", "m", "z"] {
+                    db.put(WriteOptions::default(), k.as_bytes().to_vec(), format!("{}{}", k, round).into_bytes()).unwrap();
+                }
+                let _ = db.flush_for_verif();
+            }
+            let before = db.get_descriptor(raindb::db::DatabaseDescriptor::SSTables).unwrap_or_default();
+            db.compact_range(None..None);
+            let after = db.get_descriptor(raindb::db::DatabaseDescriptor::SSTables).unwrap_or_default();
+            let count = |d: &str| d.lines().filter(|l| l.contains("(size:")).count();
+            println!("tables_before={}", count(&before));
+            println!("tables_after={}", count(&after));
+            let ok = ["a", "m", "z"].iter().all(|k| db.get(ReadOptions::default(), k.as_bytes()).map(|v| v == format!("{}2", k).into_bytes()).unwrap_or(false));
+            println!("reads_ok={}", ok);
+            println!("files_on_disk={}", v::table_numbers(&o).len());
+        }
+        // fresh_db_wal_rotation : a database that never flushed is reopened (log reused); with the background thread held its
+        // memtable fills and the log is rotated; the files are copied at that moment (crash image); the image is opened and every
+        // acknowledged key is read
+        "fresh_db_wal_rotation" => {
+            use raindb::{ReadOptions, WriteOptions};
+            let fs = std::sync::Arc::new(raindb::fs::InMemoryFileSystem::new());
+            let mut o = raindb::DbOptions::with_memory_env();
+            o.filesystem_provider = fs.clone();
+            o.db_path = "db".to_string();
+            o.create_if_missing = true;
+            o.reuse_log_files = true;
+            o.max_memtable_size = 64 * 1024;
+            let mut keys: Vec<Vec<u8>> = vec![];
+            {
+                let db = raindb::DB::open(o.clone()).expect("open");
+                db.put(WriteOptions::default(), b"first".to_vec(), b"v".to_vec()).unwrap();
+                keys.push(b"first".to_vec());
+            }
+            let db = raindb::DB::open(o.clone()).expect("reopen");
+            db.hold_background_for_verif(true);
+            let wals0 = v::wal_numbers(&o);
+            for i in 0..80u32 {
+                let k = format!("key{:04}", i).into_bytes();
+                db.put(WriteOptions::default(), k.clone(), vec![b'x'; 1024]).unwrap();
+                keys.push(k);
+                if v::wal_numbers(&o) != wals0 {
+                    break;
+                }
+            }
+            println!("wals_at_crash={:?} (before the rotation {:?})", v::wal_numbers(&o), wals0);
+            // crash image
+            let image = std::sync::Arc::new(raindb::fs::InMemoryFileSystem::new());
+            {
+                use raindb::fs::FileSystem;
+                for dir in ["db", "db/wal", "db/data"] {
+                    let _ = image.create_dir_all(std::path::Path::new(dir));
+                    for p in fs.list_dir(std::path::Path::new(dir)).unwrap_or_default() {
+                        if fs.is_dir(&p).unwrap_or(false) {
+                            continue;
+                        }
+                        if let Ok(f) = fs.open_file(&p) {
+                            let len = f.len().unwrap_or(0) as usize;
+                            let mut buf = vec![0u8; len];
+                            let _ = f.read_from(&mut buf, 0);
+                            if let Ok(mut w) = image.create_file(&p, false) {
+                                let _ = w.append(&buf);
+                            }
+                        }
+                    }
+                }
+            }
+            let mut o2 = o.clone();
+            o2.filesystem_provider = image;
+            match raindb::DB::open(o2) {
+                Err(e) => {
+                    println!("written={}", keys.len());
+                    println!("lost={} (open of the crash image failed: {:?})", keys.len(), e);
+                }
+                Ok(db2) => {
+                    let lost = keys.iter().filter(|k| db2.get(ReadOptions::default(), k).is_err()).count();
+                    println!("written={}", keys.len());
+                    println!("lost={}", lost);
+                }
+            }
+            db.hold_background_for_verif(false);
+            db.notify_background_signal_for_verif();
+            std::process::exit(0);
+        }
+        // compaction_wal_number : the memtable was rotated (new log) but not flushed yet (background thread held); a table
+        // compaction is installed. The WAL number recorded by the version set must not move: the old log still backs the
+        // unflushed memtable.
+        "compaction_wal_number" => {
+            use raindb::WriteOptions;
+            let mut o = raindb::DbOptions::with_memory_env();
+            o.db_path = "db".to_string();
+            o.create_if_missing = true;
+            o.max_memtable_size = 64 * 1024;
+            let db = raindb::DB::open(o.clone()).expect("open");
+            db.hold_background_for_verif(true);
+            for round in 0..2 {
+                db.put(WriteOptions::default(), b"a".to_vec(), format!("{}", round).into_bytes()).unwrap();
+                db.flush_to_level_zero_for_verif();
+            }
+            let wals0 = v::wal_numbers(&o);
+            for i in 0..80u32 {
+                db.put(WriteOptions::default(), format!("key{:04}", i).into_bytes(), vec![b'x'; 1024]).unwrap();
+                if v::wal_numbers(&o) != wals0 {
+                    break;
+                }
+            }
+            println!("logs={:?}", v::wal_numbers(&o));
+            match db.install_level_zero_compaction_for_verif() {
+                Some((before, after, current)) => {
+                    println!("manifest_wal_before={}", before);
+                    println!("manifest_wal_after={}", after);
+                    println!("current_wal={}", current);
+                }
+                None => println!("manifest_wal_before=none"),
+            }
+            db.hold_background_for_verif(false);
+            db.notify_background_signal_for_verif();
+            std::process::exit(0);
+        }
         "vs_recover" => {
             // a database is created, written and closed; a fresh version set recovers from its files
             use raindb::WriteOptions;
